@@ -9,7 +9,7 @@ def run(chk):
         corr=[dict(name="slices(Model/Slice.v vs the host Value API NewSlice/Get/Set/Slice/Append/Len/Range and the real opcodes NEWSLICE MAKE SLICE APPEND COPY GET SET LEN through VerifExec: histories over 3-5 aliasing variables, every answer, the capacity of every produced slice, nil-ness, the contents of every variable; mutation between range steps)",
                    cmd="c11-corr", stats="C11_corr_stats.json", n_quick=160, n_thorough=3000)],
         system=[dict(name="slice programs vs Go toolchain", cmd="c11-script", stats="C11_script_stats.json", n_quick=40, n_thorough=800,
-                     what="generated Go programs (6 histories each) over pools of 3-5 aliasing []int / []string / []float64 / []uint8 variables: literals, make, nil, two-index sub-slices (also beyond len within the known capacity), element writes through aliases (inline, ++, +=, through function parameters), append of one/several values and append(a, b...) (b may share a's array) classified as certainly-in-place / certainly-reallocating / policy-independent x = append(x, ..) on an unshared array, copy incl. overlapping and copy(bytes, string), len, range with mutation in the body, arithmetic on elements, == nil; every variable printed after every statement; half of the programs end in an out-of-range index / slice / make through run-time operands; append through helpers incl. `return append(s, v)`, append(bytes, "str"...) with non-ASCII strings; plus one fixed-shape program per construct with an open finding (groups c11|copy-count, c11|nil-stays-nil); stdout and panic/no-panic compared with `go build` (int read as int32); cap() is never observed")],
+                     what="generated Go programs (6 histories each) over pools of 3-5 aliasing []int / []string / []float64 / []uint8 variables: literals, make, nil, two-index sub-slices (also beyond len within the known capacity), element writes through aliases (inline, ++, +=, through function parameters), append of one/several values and append(a, b...) (b may share a's array) classified as certainly-in-place / certainly-reallocating / policy-independent x = append(x, ..) on an unshared array, copy incl. overlapping and copy(bytes, string), len, range with mutation in the body, arithmetic on elements, == nil; every variable printed after every statement; half of the programs end in an out-of-range index / slice / make through run-time operands; append through helpers incl. `return append(s, v)`, append(bytes, str...) with non-ASCII string constants; plus one fixed-shape program per construct with an open finding (groups c11|copy-count, c11|nil-stays-nil); stdout and panic/no-panic compared with `go build` (int read as int32); cap() is never observed")],
         assumptions=["Go's slices are what GoSpec/GoSlice.v says (store of fixed-length arrays, descriptors (array, offset, len, cap), two-index slice expressions, append in place iff len+k <= cap, copy = memmove of min(len, len) values); validated on every run by the differential against the Go toolchain",
                      "growth oracle: the capacity of a reallocating append is an arbitrary number >= the needed length (theorems quantify over every oracle; the correspondence feeds the capacity the real append chose, read through VerifCap)",
                      "goatlang's sliceT.data is a Go slice of Values, so Go's own append/copy/slice-expression/index semantics on []Value are taken from GoSpec/GoSlice.v, not re-verified; unwritten cells of a []Value array hold Value{}",
